@@ -273,6 +273,15 @@ impl Sim {
                 self.out.count("listens", 1);
                 Ok(())
             }
+            // Once a connection exists in this episode its server side
+            // (accepted, queued or still closing) legitimately shares the
+            // listener's address: AddrInUse is then what a socket table
+            // must answer (C17's model). Only a bind on a table the last
+            // checkpoint found clean is required to succeed.
+            Err(e) if e.kind() == ErrorKind::AddrInUse && ep.conn.is_some() => {
+                self.out.count("listen_addr_in_use_while_connection_alive", 1);
+                Ok(())
+            }
             Err(e) => Err(self.complaint(
                 ep.idx,
                 "listen-bind-failed",
